@@ -659,3 +659,12 @@ pub fn read_cases(path: &str) -> Vec<Value> {
         .map(|l| serde_json::from_str(&l).expect("case json"))
         .collect()
 }
+
+impl<K: VerifyingKey + pgp::ser::Serialize> pgp::ser::Serialize for RecVerifier<'_, K> {
+    fn to_writer<W: io::Write>(&self, w: &mut W) -> pgp::errors::Result<()> {
+        self.inner.to_writer(w)
+    }
+    fn write_len(&self) -> usize {
+        self.inner.write_len()
+    }
+}
